@@ -355,6 +355,13 @@ Theorem fix_period_one_context_drifts :
 Proof. exact fix_one_context_nth. Qed.
 Print Assumptions fix_period_one_context_drifts.
 
+(* The exact result of EVERY execution under one context (positive range): execution k+1 is accepted iff the caller's context and
+   the window of execution k were, and then it sees the window of the closed form. *)
+Theorem fix_period_one_context_exact :
+  forall d k c, (0 < d)%Z -> nth k (fix_run_one d (S k) c) None = fix_nth_result d c k.
+Proof. exact fix_one_context_exact. Qed.
+Print Assumptions fix_period_one_context_exact.
+
 (* ... the drift ends in the 11000-points refusal after finitely many executions, and a refusal is for ever. *)
 Theorem fix_period_one_context_eventually_refused :
   forall d c, (0 < d)%Z -> (0 < f_step c)%Z -> (f_from c <= f_to c)%Z -> exists k, fix_refuses (fix_nth_window d c k) = true.
@@ -386,3 +393,9 @@ Proof. vm_compute. repeat split; congruence. Qed.
 Example fix_period_before_epoch_rounds_up :
   exists d c, (0 < d)%Z /\ (f_from c <= f_to c)%Z /\ (f_from c < f_from (fix_window d c))%Z.
 Proof. exact fix_window_before_epoch. Qed.
+(* accepted once, refused from the second execution on: a window of exactly 11000 steps (the exact theorem's refusal branch is met) *)
+Example fix_period_accepted_then_refused :
+  let c := {| f_from := 0; f_to := 11000; f_step := 1 |} in
+  fix_run_one 1 3 c = [Some {| f_from := 0; f_to := 11001; f_step := 1 |}; None; None] /\
+  fix_nth_result 1 c 0 <> None /\ fix_nth_result 1 c 1 = None.
+Proof. vm_compute. repeat split; congruence. Qed.
